@@ -27,6 +27,10 @@ TARGETS_SUPPORTED = [
     ("(x{n}, y{n})", 1),
     ("[x{n}]", 2),
     ("(x{n}, *y{n}, z{n})", 3),
+    ("(x{n}, y{n}, *z{n})", 3),
+    ("(*x{n}, y{n}, z{n})", 3),
+    ("(x{n}, *y{n})", 1),
+    ("(x{n}, (y{n}, *z{n}))", 4),
     ("(x{n}, (y{n}, z{n}))", 4),
     ("(W.ns.a, W.d[1])", 1),
     ("cx{n}", 0),  # closure (cell) variable
